@@ -24,6 +24,8 @@ EXPLANATION = (
     'installed once per registered module.  The 1/rows normalisation is applied before the contraction so the unnormalised Gram sum is '
     'never materialised in the factor dtype.  Finiteness as a numerical fact and device placement are not decided.')
 
+NOT_DECIDED = 'finiteness as a numerical fact; device placement'
+
 
 def rule_param_write(ctx: Ctx) -> None:
     p = ctx.prog
